@@ -22,7 +22,7 @@ def ideal(cfg, workers=8):
     return res
 
 
-def make(pid, quick, thorough, rule, max_paths_quick=1500, neg=None, concat=None):
+def make(pid, quick, thorough, rule, max_paths_quick=4000, neg=None, concat=None):
     def run(tier, seed):
         cfgs = quick if tier == "quick" else thorough
         jobs = [lambda: ideal("Ideal_quick.cfg" if tier == "quick" else "Ideal_thorough.cfg", workers=4)]
@@ -58,6 +58,12 @@ def make(pid, quick, thorough, rule, max_paths_quick=1500, neg=None, concat=None
             cov["transitions"] += ccov["transitions"]
             cov["traces_validated_against_impl"] += ccov["paths"]
         cov["rule"] = rule
+        others = {}
+        for v in viol:
+            if not (v.get("prop") is None or pid in v["prop"]):
+                key = f"{v['signature']} [{v['prop']}]"
+                others[key] = others.get(key, 0) + 1
+        cov["other_property_signatures"] = others
         cov["other_property_divergences_seen"] = len(viol) - len(mine) if not concat else len(viol) - len([m for m in mine if not m["signature"].startswith("concat:")])
         if cov["steps_compared"] < 200:
             raise tlc.MachineryError("too few steps replayed")
